@@ -673,6 +673,14 @@ def corpus_net(rng, name):
             b.net.ops.append(netgen.Op("TRANSPOSE_CONV", [os_, f.inputs[1], x, f.inputs[2]], [y1], ("TransposeConvOptions", dict(
                 Padding=0, StrideW=2, StrideH=2))))
         return b.finish([y0, y1])
+    if name == "known_shared_fold_same_valid":
+        # regression network of the class of seeded change C08-r5m2 (nothing known about the unchanged compiler): two CONV_2D
+        # with stride width 4 on ONE 1x9 filter and bias, SAME (pad_left 2) and VALID; both are folded by 4 to a 1x3 kernel over
+        # 12 channels, the SAME one with two zero columns in front. Their clones must not share an encoded weight stream.
+        import netgen_shared
+
+        return netgen_shared.build(rng, 0, "stride_ge4_same_vs_valid", n_ops=2, dtype="int8", per_channel=False, small=True,
+                                   make_b=make_builder, name=name, kernel=(1, 9), stride_w=4, ic=3, oc=4, hw=(3, 16))
     if name in ("known_tconv_stride1_same_even", "known_tconv_stride1_valid", "known_pad_folded_conv"):
         b = make_builder(rng, name, "int8")
         if name == "known_pad_folded_conv":
@@ -1182,7 +1190,7 @@ def main():
                                                               "resize_reshape", "mean_reshape", "widepool_reshape",
                                                               "transpose_relu", "sqdiff_reshape", "dilation3_uint8", "shared_dilation3", "shared_tconv",
                                                               "prelu_reshape", "transpose_lut_mul", "protected_reshape_inplace",
-                                                              "tconv_stride1_same_even", "tconv_stride1_valid", "pad_folded_conv")]
+                                                              "tconv_stride1_same_even", "tconv_stride1_valid", "pad_folded_conv", "shared_fold_same_valid")]
     jobs += [(ck.seed, i, PROFILES[i % len(PROFILES)], k_inputs) for i in range(n)]
     ctx = multiprocessing.get_context("fork")
     t0 = time.time()
